@@ -402,9 +402,11 @@ def train_ddpg(
     if q_target is None:
         q_target = nnx.clone(q)
 
+    steps_trained = global_step
     for global_step in trange(
         global_step, total_timesteps, disable=not progress_bar
     ):
+        steps_trained = global_step + 1
         if global_step < learning_starts:
             action = env.action_space.sample()
         else:
@@ -502,5 +504,5 @@ def train_ddpg(
         q_target,
         q_optimizer,
         replay_buffer,
-        global_step + 1,
+        steps_trained,
     )
